@@ -10,6 +10,7 @@ mod startok;
 mod timershim;
 mod tune;
 mod url;
+mod handover;
 mod writeprobe;
 
 use serde_json::Value;
@@ -77,6 +78,7 @@ fn main() {
         "writeprobe" => writeprobe::run(&args),
         "framebuf" => framebuf::run(&args),
         "url" => url::run(&args),
+        "handover" => handover::run(&args),
         "slots-boundary-child" => slots::boundary_child(&args.rest[0]),
         "replay" => {
             let path = args.rest.first().cloned().unwrap_or_else(|| usage());
@@ -94,6 +96,7 @@ fn main() {
                 "writeprobe" => writeprobe::replay(&v),
                 "framebuf" => framebuf::replay(&v),
                 "url" => url::replay(&v),
+                "handover" => handover::replay(&v),
                 other => {
                     eprintln!("unknown replay check {:?}", other);
                     std::process::exit(2);
